@@ -110,11 +110,19 @@ def boot(program='carbon-cache', conf=None, files=None, standins=(), database='v
   c = dict(conf or {})
   c.setdefault('DATABASE', database)
   c.setdefault('CARBON_METRIC_INTERVAL', 0)
-  # LOG_UPDATES, LOG_CREATES, LOG_CACHE_HITS, LOG_CACHE_QUEUE_SORTS, LOG_LISTENER_CONN_SUCCESS keep their production
-  # defaults (on): the logging branches are part of what runs in a daemon.  VERIF_QUIET_LOGS=1 switches them off.
-  if os.environ.get('VERIF_QUIET_LOGS') == '1':
+  # The logging switches are part of what runs in a daemon, both ways: every other configuration (by a hash of its name)
+  # runs with the production defaults (LOG_UPDATES, LOG_CREATES, LOG_CACHE_HITS, LOG_CACHE_QUEUE_SORTS,
+  # LOG_LISTENER_CONN_SUCCESS on, LOG_LISTENER_CONN_LOST off), the others with all of them inverted.
+  # VERIF_QUIET_LOGS=1 / 0 forces one of the two.
+  import zlib
+  quiet = os.environ.get('VERIF_QUIET_LOGS')
+  if quiet is None:
+    quiet = str(zlib.crc32(os.environ.get('VERIF_CFG_NAME', '').encode()) % 2)
+  if quiet == '1':
     for k in ('LOG_UPDATES', 'LOG_CREATES', 'LOG_CACHE_HITS', 'LOG_CACHE_QUEUE_SORTS', 'LOG_LISTENER_CONN_SUCCESS'):
       c.setdefault(k, False)
+    c.setdefault('LOG_LISTENER_CONN_LOST', True)
+    c.setdefault('LOG_AGGREGATOR_MISSES', False)
   c.setdefault('ENABLE_LOGROTATION', False)
   # carbon-aggregator-cache reads section [aggregator-cache]
   secs = [(section, c)]
